@@ -229,7 +229,8 @@ def status_text(status):
     if os.WIFSIGNALED(status):
         return "signal-%d" % os.WTERMSIG(status)
     code = os.WEXITSTATUS(status)
-    names = {104: "no-progress(step cap)", 105: "deadlock", 106: "exit-called", 107: "assert-failed",
+    names = {101: "heap-out-of-bounds", 102: "write-to-readonly", 103: "heap-use-after-free",
+             104: "no-progress(step cap)", 105: "deadlock", 106: "exit-called", 107: "assert-failed",
              108: "bad-free", 109: "arena-exhausted"}
     return names.get(code, "exit-%d" % code)
 
@@ -309,9 +310,10 @@ def _main(check, ctx, args, t0):
     if args.digests:
         n = int(args.digests)
         results, crashes, _ = run_batch(check, ctx, n, 600)
-        if crashes:
-            raise HarnessError("crash in digest mode %s" % crashes)
-        print("DIGESTS " + json.dumps({str(r["i"]): r["digest"] for r in results}, sort_keys=True))
+        dg = {str(r["i"]): r["digest"] for r in results}
+        for c in crashes:  # a run that kills its worker does so in every interpreter: that is its "digest"
+            dg[str(c["i"])] = "CRASH:" + status_text(c["status"])
+        print("DIGESTS " + json.dumps(dg, sort_keys=True))
         return 0
 
     tier = dict(check.tiers[ctx.tier])
@@ -340,6 +342,9 @@ def _main(check, ctx, args, t0):
             raise HarnessError("fresh-interpreter self-test failed to run:\n" + p.stdout.decode(errors="replace")[-3000:])
         other = json.loads(line[0][8:])
         mine = {str(r["i"]): r["digest"] for r in results if r["i"] < k}
+        for c in crashes:
+            if c["i"] is not None and c["i"] < k:
+                mine[str(c["i"])] = "CRASH:" + status_text(c["status"])
         for i, dg in other.items():
             if i in mine and mine[i] != dg:
                 raise HarnessError("run %s: digest differs in a fresh interpreter (PYTHONHASHSEED, 3 workers): %s vs %s"
@@ -362,8 +367,14 @@ def _main(check, ctx, args, t0):
         else:
             new_keys.setdefault(key, []).append(r)
     # crashed runs: confirm in isolation, then report
-    for c in crashes:
+    confirmed_kinds = {}
+    for c in sorted(crashes, key=lambda c: (c["i"] is None, c["i"])):
         i = c["i"]
+        kind_txt = status_text(c["status"])
+        if i is not None and kind_txt in confirmed_kinds:
+            # same way of dying as a run already confirmed in isolation: count it with that one
+            confirmed_kinds[kind_txt].append({"i": i})
+            continue
         if i is None:
             raise HarnessError("a worker died before starting any run (status %s)" % c["status"])
         desc = check.gen(run_seed(ctx.seed, i), ctx)
@@ -374,9 +385,10 @@ def _main(check, ctx, args, t0):
             key = (check.id, v["key"])
             rec = {"i": i, "viol": v, "desc": desc}
             if key in open_keys:
-                known_hit.setdefault(key, []).append(rec)
+                confirmed_kinds[kind_txt] = known_hit.setdefault(key, [])
             else:
-                new_keys.setdefault(key, []).append(rec)
+                confirmed_kinds[kind_txt] = new_keys.setdefault(key, [])
+            confirmed_kinds[kind_txt].append(rec)
         elif kind == "timeout":
             raise HarnessError("run %d died in the batch and hangs in isolation" % i)
         else:
